@@ -20,7 +20,8 @@ CONSTANTS Types,        \* middleware types, e.g. {"A", "B", "C"}
           MinTotal,     \* min middlewares before a request is run (steers simulation)
           PhaseSets,    \* allowed sets of phases per middleware, e.g. {{1},{2},{3},{1,2,3}}
           Faults,       \* subset of {"none","raiseBefore","raiseAfter","short","swallow"}
-          EpKinds       \* subset of {"context","response","raise"}
+          EpKinds,      \* subset of {"context","response","raise"}
+          RnKinds       \* subset of {"response","none"}: what the render function returns (None = a forgotten return)
 
 Mw == [t : Types, ph : PhaseSets]
 \* the type table used by the configs: A, B unique + reorderable (the default of Middleware),
@@ -68,12 +69,13 @@ VARIABLES outer, inner, route,   \* the three levels
           chain,     \* merged middleware list
           plan,      \* [f |-> function id or "-", k |-> fault kind]
           epKind,    \* what the endpoint does
+          rnKind,    \* what the render function returns
           stack,     \* sequence of function ids currently active
           mode,      \* "idle" | "call" | "return" | "raise" | "done"
           carry,     \* the value in flight: [k |-> "resp"|"exc"|"ctx"|"none", by |-> function id]
           trace      \* sequence of events
 
-vars == <<outer, inner, route, chain, plan, epKind, stack, mode, carry, trace>>
+vars == <<outer, inner, route, chain, plan, epKind, rnKind, stack, mode, carry, trace>>
 
 \* function ids: <<position in merged chain, phase>>; endpoint = <<0, 2>>, render = <<0, 3>>,
 \* the generated process_request glue = <<0, 1>> (not observable, no events)
@@ -98,7 +100,7 @@ Lists == UNION {[1..k -> Mw] : k \in 0..MaxPerLevel}
 
 \* the configuration is built by actions (so that simulation can sample large configurations)
 Init == /\ outer = <<>> /\ inner = <<>> /\ route = <<>> /\ chain = <<>>
-        /\ plan = [f |-> GLUE, k |-> "none"] /\ epKind = "context"
+        /\ plan = [f |-> GLUE, k |-> "none"] /\ epKind = "context" /\ rnKind = "response"
         /\ stack = <<>> /\ mode = "build" /\ carry = None /\ trace = <<>>
 
 AddMw(lvl, mw) ==
@@ -110,10 +112,10 @@ AddMw(lvl, mw) ==
                        /\ inner' = Append(inner, mw) /\ UNCHANGED <<outer, route>>
          [] lvl = 3 -> Len(route) < MaxPerLevel
                        /\ route' = Append(route, mw) /\ UNCHANGED <<outer, inner>>
-    /\ UNCHANGED <<chain, plan, epKind, stack, mode, carry, trace>>
+    /\ UNCHANGED <<chain, plan, epKind, rnKind, stack, mode, carry, trace>>
 
 \* bind: the chain is merged, the fault plan and the endpoint behaviour are chosen
-Go(pl, ek) ==
+Go(pl, ek, rk) ==
     /\ mode = "build"
     /\ Len(outer) + Len(inner) + Len(route) >= MinTotal
     /\ NoDupWithin(outer) /\ NoDupWithin(inner) /\ NoDupWithin(route)
@@ -121,7 +123,7 @@ Go(pl, ek) ==
     /\ chain' = MergeAll(outer, inner, route).l
     /\ pl \in {[f |-> GLUE, k |-> "none"]} \cup [f : RealFuncs(chain'), k : Faults \ {"none"}]
     /\ (pl.f \in {EP, RN} => pl.k \in {"raiseBefore"})   \* innermost functions have no next()
-    /\ plan' = pl /\ epKind' = ek /\ mode' = "idle"
+    /\ plan' = pl /\ epKind' = ek /\ rnKind' = rk /\ mode' = "idle"
     /\ UNCHANGED <<outer, inner, route, stack, carry, trace>>
 
 PlanSpace == {[f |-> GLUE, k |-> "none"]} \cup
@@ -136,7 +138,7 @@ Ev(a, f, c) == [a |-> a, f |-> f, k |-> c.k, by |-> c.by]
 Start == /\ mode = "idle"
          /\ stack' = << Order(chain, 1)[1] >>
          /\ mode' = "call"
-         /\ UNCHANGED <<outer, inner, route, chain, plan, epKind, carry, trace>>
+         /\ UNCHANGED <<outer, inner, route, chain, plan, epKind, rnKind, carry, trace>>
 
 \* control arrives at the top function (a middleware function): it is entered
 EnterMw ==
@@ -152,13 +154,13 @@ EnterMw ==
                  /\ trace' = Append(trace, Ev("enter", f, None))
                  /\ stack' = Append(stack, NextOf(chain, f))
                  /\ UNCHANGED <<mode, carry>>
-    /\ UNCHANGED <<outer, inner, route, chain, plan, epKind>>
+    /\ UNCHANGED <<outer, inner, route, chain, plan, epKind, rnKind>>
 
 \* process_request: calls the endpoint chain first
 EnterGlue ==
     /\ mode = "call" /\ Top = GLUE
     /\ stack' = Append(stack, Order(chain, 2)[1])
-    /\ UNCHANGED <<outer, inner, route, chain, plan, epKind, mode, carry, trace>>
+    /\ UNCHANGED <<outer, inner, route, chain, plan, epKind, rnKind, mode, carry, trace>>
 
 EnterEndpoint ==
     /\ mode = "call" /\ Top = EP
@@ -168,15 +170,17 @@ EnterEndpoint ==
        IN /\ trace' = trace \o <<Ev("enter", EP, None), Ev(IF c.k = "exc" THEN "raise" ELSE "return", EP, c)>>
           /\ carry' = c /\ mode' = IF c.k = "exc" THEN "raise" ELSE "return"
     /\ stack' = Pop
-    /\ UNCHANGED <<outer, inner, route, chain, plan, epKind>>
+    /\ UNCHANGED <<outer, inner, route, chain, plan, epKind, rnKind>>
 
 EnterRender ==
     /\ mode = "call" /\ Top = RN
-    /\ LET c == IF FaultOf(RN) = "raiseBefore" THEN [k |-> "exc", by |-> RN] ELSE [k |-> "resp", by |-> RN]
+    /\ LET c == IF FaultOf(RN) = "raiseBefore" THEN [k |-> "exc", by |-> RN]
+                ELSE IF rnKind = "none" THEN [k |-> "nil", by |-> RN]      \* returns None: travels outward like any value
+                ELSE [k |-> "resp", by |-> RN]
        IN /\ trace' = trace \o <<Ev("enter", RN, None), Ev(IF c.k = "exc" THEN "raise" ELSE "return", RN, c)>>
           /\ carry' = c /\ mode' = IF c.k = "exc" THEN "raise" ELSE "return"
     /\ stack' = Pop
-    /\ UNCHANGED <<outer, inner, route, chain, plan, epKind>>
+    /\ UNCHANGED <<outer, inner, route, chain, plan, epKind, rnKind>>
 
 \* next() returned into a middleware function
 ReturnIntoMw ==
@@ -188,7 +192,7 @@ ReturnIntoMw ==
        ELSE /\ trace' = Append(trace, Ev("return", f, carry))      \* passes the inner result through
             /\ UNCHANGED <<carry, mode>>
     /\ stack' = Pop
-    /\ UNCHANGED <<outer, inner, route, chain, plan, epKind>>
+    /\ UNCHANGED <<outer, inner, route, chain, plan, epKind, rnKind>>
 
 \* next() raised into a middleware function
 RaiseIntoMw ==
@@ -200,7 +204,7 @@ RaiseIntoMw ==
        ELSE /\ trace' = Append(trace, Ev("raise", f, carry))       \* the same exception propagates
             /\ UNCHANGED <<carry, mode>>
     /\ stack' = Pop
-    /\ UNCHANGED <<outer, inner, route, chain, plan, epKind>>
+    /\ UNCHANGED <<outer, inner, route, chain, plan, epKind, rnKind>>
 
 \* the endpoint chain came back to process_request
 GlueAfterEndpoint ==
@@ -210,16 +214,16 @@ GlueAfterEndpoint ==
             /\ stack' = Append(stack, Order(chain, 3)[1]) /\ mode' = "call" /\ carry' = [k |-> "ctxseen", by |-> EP]
        ELSE \* a Response (render skipped) or an exception: process_request is left
             /\ stack' = Pop /\ UNCHANGED <<mode, carry>>
-    /\ UNCHANGED <<outer, inner, route, chain, plan, epKind, trace>>
+    /\ UNCHANGED <<outer, inner, route, chain, plan, epKind, rnKind, trace>>
 
 \* (the render chain returning into GLUE is the same transition: carry is then resp/exc)
 
 Finish == /\ stack = <<>> /\ mode \in {"return", "raise"}
           /\ mode' = "done"
-          /\ UNCHANGED <<outer, inner, route, chain, plan, epKind, stack, carry, trace>>
+          /\ UNCHANGED <<outer, inner, route, chain, plan, epKind, rnKind, stack, carry, trace>>
 
 Next == (\E lvl \in 1..3, mw \in Mw : AddMw(lvl, mw))
-        \/ (\E pl \in PlanSpace, ek \in EpKinds : Go(pl, ek))
+        \/ (\E pl \in PlanSpace, ek \in EpKinds, rk \in RnKinds : Go(pl, ek, rk))
         \/ Start \/ EnterMw \/ EnterGlue \/ EnterEndpoint \/ EnterRender \/ ReturnIntoMw \/ RaiseIntoMw
         \/ GlueAfterEndpoint \/ Finish
 
@@ -277,12 +281,12 @@ Complete == mode = "done" => (Len(Events("enter")) = Len(Events("return")) + Len
 
 Emit == (mode = "done") =>
           PrintT(<<"EMIT", ToJson([outer |-> outer, inner |-> inner, route |-> route, chain |-> chain, plan |-> plan,
-                                   epKind |-> epKind, trace |-> trace, final |-> carry])>>)
+                                   epKind |-> epKind, rnKind |-> rnKind, trace |-> trace, final |-> carry])>>)
 \* construction-level emission: every level triple with the merge verdict (ValueError for a
 \* non-reorderable unique duplicate), used with MergeSpec (no request phase)
 MergeInit == /\ outer \in Lists /\ inner \in Lists /\ route \in Lists
              /\ Len(outer) + Len(inner) + Len(route) <= MaxTotal
-             /\ chain = <<>> /\ plan = [f |-> GLUE, k |-> "none"] /\ epKind = "context"
+             /\ chain = <<>> /\ plan = [f |-> GLUE, k |-> "none"] /\ epKind = "context" /\ rnKind = "response"
              /\ stack = <<>> /\ mode = "idle" /\ carry = None /\ trace = <<>>
 MergeSpec == MergeInit /\ [][FALSE]_vars
 EmitMerge == PrintT(<<"EMIT", ToJson([outer |-> outer, inner |-> inner, route |-> route,
